@@ -2,7 +2,7 @@
    proofs/P_C01.v.  [in_dev d a n]: the range [a, a+n) lies inside the device image and no
    access is scripted to fail.  [same_outside d d' a n]: every byte outside [a, a+n) is
    unchanged.  Model: model/RegCodec.v (uncached register access). *)
-From Cam Require Import Outcome Bytes Mem BitField RegCodec P_C01 P_C01f.
+From Cam Require Import Outcome Bytes Mem BitField RegCodec P_C01 P_C01f RustBytes CodecSrc P_C01s.
 
 (* integers: the image written is the two's-complement image in the declared byte order, one
    write of exactly [address, address+length), read-back returns the value *)
@@ -108,3 +108,33 @@ Theorem C01_str_v0_refuted :
                       string_value r d1 = (Ok [97], d2) /\ s <> [97].
 Proof. exact string_v0_refuted. Qed.
 Print Assumptions C01_str_v0_refuted.
+
+(* ---- the code itself: gen/CodecSrc.v is regenerated from int_from_slice / bytes_from_int / float_from_slice /
+   bytes_from_float of genapi/src/utils.rs on every run (tools/translate_codec.py: the macro arms, the invocation list
+   and the match arms in the source's order, over the byte conversions of lib/RustBytes.v). *)
+Theorem C01_int_decode_from_source : forall bs e s, bytes_ok bs -> flag e -> flag s ->
+  src_int_from_slice bs e s = int_from_slice bs e s.
+Proof. exact int_from_source. Qed.
+Print Assumptions C01_int_decode_from_source.
+
+Theorem C01_int_encode_from_source : forall v len e s, flag e -> flag s ->
+  src_bytes_from_int v len e s = bytes_from_int v len e s.
+Proof. exact bytes_from_int_source. Qed.
+Print Assumptions C01_int_encode_from_source.
+
+Theorem C01_float_decode_from_source : forall bs e, flag e -> src_float_from_slice bs e = float_from_slice bs e.
+Proof. exact float_from_source. Qed.
+Print Assumptions C01_float_decode_from_source.
+
+Theorem C01_float_encode_from_source : forall bits len e, flag e ->
+  src_bytes_from_float bits len e = bytes_from_float bits len e.
+Proof. exact bytes_from_float_source. Qed.
+Print Assumptions C01_float_encode_from_source.
+
+(* the round trip, of the translated code: every in-range value of a supported length is encoded into exactly [len]
+   bytes that decode to it, in both byte orders and both signednesses *)
+Theorem C01_source_int_roundtrip : forall v len e s, flag e -> flag s -> supported_int_len len = true ->
+  int_in_range len s v ->
+  exists img, src_bytes_from_int v len e s = Ok img /\ zlen img = len /\ src_int_from_slice img e s = Ok v.
+Proof. exact source_int_roundtrip. Qed.
+Print Assumptions C01_source_int_roundtrip.
